@@ -759,8 +759,16 @@ func (m *monC05) AfterTx(w *World, tx *TxCtx) {
 		if gotL.Cmp(unlock) != 0 {
 			w.Violate("C05", "C05/unlock-amount-wrong", "tx %d/%d (%s): payer locked %s fee %s: locked changed by %s, expected %s", tx.Block, tx.Idx, kind, L, tx.Fee, gotL, unlock)
 		}
+	case M && len(tx.Granter) > 0 && !tx.Granter.Equals(tx.Payer) && !tx.Spec.Replay:
+		// a fee granter pays the fee: the signer's locked eFUND is not spent as a WRKChain/BEACON
+		// fee by this transaction, so none of it may be unlocked (unlocked coins would simply become
+		// spendable)
+		w.Probe("c05.module-tx-with-fee-granter")
+		if gotL.Sign() != 0 {
+			w.Violate("C05", "C05/unlocked-although-a-granter-pays-the-fee", "tx %d/%d (%s): the fee %s is paid by granter %s, yet the signer's locked eFUND (%s) changed by %s", tx.Block, tx.Idx, kind, tx.Fee, tx.Granter, L, gotL)
+		}
 	default:
-		// fee granter, nested-only module message or a replayed tx: the statement allows 0 or -min(F,L)
+		// nested-only module message or a replayed tx: the statement allows 0 or -min(F,L)
 		if gotL.Sign() != 0 && gotL.Cmp(unlock) != 0 {
 			w.Violate("C05", "C05/unlock-amount-wrong", "tx %d/%d (%s): payer locked %s fee %s: locked changed by %s, allowed 0 or %s", tx.Block, tx.Idx, kind, L, tx.Fee, gotL, unlock)
 		}
